@@ -564,3 +564,22 @@ func seedFromEnv() int {
 	fmt.Sscanf(os.Getenv("VERIF_SEED"), "%d", &n)
 	return n
 }
+
+// AllInstancesOf: the instantiations of a generic function that exist in the program (the function itself when it
+// is not generic).
+func (c *Ctx) AllInstancesOf(fn *ssa.Function) []*ssa.Function {
+	if fn == nil {
+		return nil
+	}
+	if fn.TypeParams().Len() == 0 || len(fn.TypeArgs()) > 0 {
+		return []*ssa.Function{fn}
+	}
+	var out []*ssa.Function
+	for f := range c.AllFns {
+		if f.Origin() == fn && len(f.Blocks) > 0 {
+			out = append(out, f)
+		}
+	}
+	sort.Slice(out, func(i, j int) bool { return out[i].String() < out[j].String() })
+	return out
+}
